@@ -109,6 +109,11 @@ func valid(e *Entry, seed uint64) []byte {
 	return v
 }
 
+// Valid returns a copy of the entry's valid encoding number seed%Seeds.
+func Valid(e *Entry, seed uint64) []byte {
+	return append([]byte{}, valid(e, seed%uint64(e.Seeds))...)
+}
+
 // Apply returns the corrupted encoding, or nil,false if the fault does not apply.
 func Apply(e *Entry, v []byte, m Mut) ([]byte, bool) {
 	out := append([]byte{}, v...)
